@@ -21,16 +21,16 @@ CHECKS = {
     "C06": dict(level="exploration", tech="runtime monitoring: FIFO oracle over recorded Created/Start of all jobs (sequential and concurrent histories) + waiting-list equality with the model after every step",
                 text="Histories with up to ~15 waiting jobs, cancels in the middle of the queue, unstartable heads, concurrency 1-3.", ref="4 C06"),
     "C07": dict(level="exploration", tech="runtime monitoring with REAL timers: monotonic timestamp arithmetic (lower bound), logical quiescence after observed delay-handler return (hook H2) for 'no additional delay', replaced-never-runs / newest-runs oracles over the event log",
-                text="Bursts of 1-8 requests with gaps around the delay, busy and idle pipelines, cancels inside the burst, 4-client stress bursts; plus logically fired delays in conformance histories (also with retention, reloads, and on runners restarted on every persisted snapshot / prepared stores).", ref="4 C07"),
+                text="Bursts of 1-8 requests with gaps around the delay, busy and idle pipelines, cancels inside the burst, 4-client stress bursts; plus logically fired delays in conformance histories (also with retention, reloads, and on runners restarted on every persisted snapshot / prepared stores); a delay that passes while a slow store is busy with a save.", ref="4 C07"),
     "C08": dict(level="exploration", tech="runtime monitoring: driver-chosen task outcomes as ground truth, task-level simulation vs tasks inside the monitored runner after every step, predicted verdict vs terminal ReadJob snapshot and /job/detail JSON",
                 text="Failure/allow_failure/non-exit-error assignments x both fail-fast settings x release orders x external cancels; verdict soundness (plain success only if all tasks succeeded or failed with allow_failure) is checked on every finished job; real-runner cases: tasks that fail before their script runs, commands killed by signals, programs that cannot be started (allowed or not).", ref="4 C08"),
     "C09": dict(level="fault_enumeration", tech="fault injection with strace: SIGKILL / ENOSPC / EIO / EMFILE injected at EVERY openat/write/close/rename system call of the saving thread of a victim process (counted in a dry run), random-instant SIGKILLs, inspection from a fresh process; in-process reader-vs-writer monitor",
                 text="Every system-call boundary of a multi-save run of the real JsonDataStore is a crash point and an I/O fault point; the directory is then loaded by a fresh process and must show one complete, allowed generation; a fresh saver then writes a shorter generation into the same directory, which must be read back exactly.", ref="4 C09",
                 note="Trusted base: strace's injection, kernel rename atomicity. Power loss is outside the statement (no fsync in the code)."),
     "C10": dict(level="fault_enumeration", tech="runtime monitoring over save points: recording wrapper around the real JsonDataStore copies every persisted snapshot of a conformance history; a fresh runner is started on each copy and compared field by field (decoded values) with the live runner; prepared store files for states that exist only between two runner steps",
-                text="Every persisted snapshot of every history (explicit saves at every position + persist loop) is a restart point; arbitrary JSON payloads incl. floats with 17 significant digits.", ref="4 C10"),
+                text="Every persisted snapshot of every history (explicit saves at every position + persist loop) is a restart point; arbitrary JSON payloads incl. floats with 17 significant digits; malformed request bodies; saves that fail in the encoder leave the last good snapshot loadable.", ref="4 C10"),
     "C11": dict(level="exploration", tech="runtime monitoring: offline oracle keyed on the Shutdown return event over the event log + recording store (last snapshot that reached the store vs reported state at return), concurrent clients and in-flight slow saves; heartbeat-clock monitor for the persist loop",
-                text="States at shutdown begin from conformance prefixes x graceful/forced x racing schedule/cancel/save clients (also over HTTP: 503) x slow saves; persist loop checked with a 10 s heartbeat limit for its 3 s period; the real binary under SIGINT / SIGTERM / repeated SIGINT; the real JSON store after saves that failed while its directory was away.", ref="4 C11"),
+                text="States at shutdown begin from conformance prefixes x graceful/forced x racing schedule/cancel/save clients (also over HTTP: 503) x slow saves; persist loop checked with a 10 s heartbeat limit for its 3 s period; the real binary under SIGINT / SIGTERM / repeated SIGINT; the real JSON store after saves that failed while its directory was away; changes made while a graceful shutdown waits reach the store within the interval.", ref="4 C11"),
     "C12": dict(level="exploration", tech="runtime monitoring: before/after oracle around every SaveToStore over generated job populations on the real JsonDataStore + FileOutputStore (API view, store file, recursive hash of the log tree)",
                 text="retention_count x retention_period x loaded (shuffled file order) and live jobs in every state x removed pipelines x repeated saves; ages have >= 7 min margins, a 1 ms period makes live unfinished jobs 'too old'; jobs without log directory, runners without output store / data store, failing saves.", ref="4 C12"),
     "C13": dict(level="exploration", tech="Go race detector (-race, implies checkptr) over measured-coverage stress histories; report blocks counted in GORACE log files and de-duplicated by frame pair",
@@ -40,7 +40,7 @@ CHECKS = {
                 text="The finite product routes x 7 methods x ~27 invalid credential classes x 3 transports x profiling on/off x 3 secrets is enumerated completely in both tiers (thorough repeats it with fresh random token mutations); every cookie or token a rejected response carries is tried as a credential; the real binary with the profiling flag absent / false.", ref="4 C14",
                 note="Trusted base: chi's route walk lists every registered route; the listener (bind address, TLS) is outside the handler."),
     "C15": dict(level="exploration", tech="runtime monitoring: API flags (schedulable/running) vs outcome of the next request and vs job list at every quiescent step",
-                text="The schedulable flag is read immediately before every schedule request of the history and compared with what the request then returns; running flag, presence, ordering and timestamps are checked on every snapshot.", ref="4 C15"),
+                text="The schedulable flag is read immediately before every schedule request of the history and compared with what the request then returns; running flag, presence, ordering and timestamps are checked on every snapshot; malformed schedule bodies over HTTP are refused without trace and leave the listing decodable.", ref="4 C15"),
     "C16": dict(level="exploration", tech="runtime monitoring: the monitored runner records the task.Task actually handed to it (commands, env, variables); compared with a deep copy of the definition taken when the schedule request returned; reload operations inside conformance histories (also with the loop parked between tasks via H1, and injected inside ScheduleAsync through the job-id generator); SIGUSR1 reload sequences on the real binary",
                 text="13 mutation operators applied at every point of a job's life; job list deep-equal across ReplaceDefinitions; per-job delay honoured; nothing stranded for pipelines that remain defined.", ref="4 C16"),
     "C17": dict(level="exploration", tech="runtime monitoring of LoadRecursively / Equals on generated inputs: round trip against the generator's own value, independent re-statement of the validity rules, single-constraint corruptions, reflection-driven single-field mutator for Equals",
